@@ -413,6 +413,10 @@ class ConfigLoader(BaseLoader):
         self._private_schema = False
 
     def loadResource(self, resource):
+        if self._private_schema:
+            # what %import added belongs to the previous load only
+            self.schema = self._base_schema
+            self._private_schema = False
         sm = self.createSchemaMatcher()
         self._parse_resource(sm, resource)
         result = sm.finish(), CompositeHandler(sm.handlers, self.schema)
@@ -440,6 +444,7 @@ class ConfigLoader(BaseLoader):
         if not self._private_schema:
             # replace the schema with an extended schema on the first %import
             self._loader = SchemaLoader(self.schema.registry)
+            self._base_schema = self.schema
             schema = ZConfig.info.createDerivedSchema(self.schema)
             self._private_schema = True
             self.schema = schema
